@@ -32,6 +32,8 @@ type TLSMat struct {
 	InterCert *x509.Certificate
 	SignRSA   tls.Certificate // S/MIME signer (RSA-2048), issued by the intermediate
 	SignECDSA tls.Certificate // S/MIME signer (P-256)
+	SignP384  tls.Certificate // S/MIME signer (ECDSA P-384)
+	SignP521  tls.Certificate // S/MIME signer (ECDSA P-521)
 }
 
 var (
@@ -104,6 +106,12 @@ func Mat() *TLSMat {
 		ek, _ := ecdsa.GenerateKey(elliptic.P256(), rand.Reader)
 		ec, eder := mkCert(leafTmpl("ecdsa signer", 8, nil, nil), inter, &ek.PublicKey, interKey)
 		m.SignECDSA = tls.Certificate{Certificate: [][]byte{eder}, PrivateKey: ek, Leaf: ec}
+		k384, _ := ecdsa.GenerateKey(elliptic.P384(), rand.Reader)
+		c384, d384 := mkCert(leafTmpl("ecdsa p-384 signer", 9, nil, nil), inter, &k384.PublicKey, interKey)
+		m.SignP384 = tls.Certificate{Certificate: [][]byte{d384}, PrivateKey: k384, Leaf: c384}
+		k521, _ := ecdsa.GenerateKey(elliptic.P521(), rand.Reader)
+		c521, d521 := mkCert(leafTmpl("ecdsa p-521 signer", 10, nil, nil), inter, &k521.PublicKey, interKey)
+		m.SignP521 = tls.Certificate{Certificate: [][]byte{d521}, PrivateKey: k521, Leaf: c521}
 		mat = m
 	})
 	return mat
